@@ -11,6 +11,8 @@ CONSTANTS
   CRProg <- L_CR
   Forms = {"fresh"}
   Colls = {}
+  LAs <- NoLA_L
+  DropOn = FALSE
   QuitOn = TRUE
   QuitDeferred = TRUE
   DefCap = 0
@@ -28,4 +30,6 @@ PROPERTY NeverEarly
 PROPERTY LifeLogged
 PROPERTY CROnce
 PROPERTY DepsFixed
+PROPERTY OptsFixed
+INVARIANT OptsOK
 CHECK_DEADLOCK FALSE
